@@ -22,6 +22,11 @@ try:
         summ = [l for l in lines if l.startswith(f'[{p}]')]
         print(f'{p}: exit={c.returncode} violations={len(vio)} {summ[-1][:160] if summ else lines[-3:]}')
         for v in vio[:3]: print('   ', v[:200])
+        obs = set()
+        for v in vio:
+            try: obs.add(json.load(open(v.split('replay=')[1].split()[0])).get('obligation', '?').split('@')[0])
+            except Exception: pass
+        print('    obligations:', sorted(obs))
         und = [l for l in lines if l.startswith(('UNDECIDED','ENGINE-FAULT'))]
         for u in und[:3]: print('   ', u[:300])
 finally:
